@@ -3,6 +3,7 @@
 //!   DIFF\t<case line>\t<reason>      model and implementation disagree
 //!   ORACLE\t<case line>\t<reason>    the property predicate fails on the implementation's own output
 //!   STATS\t<json>                    totals
+mod buffers;
 mod codec;
 mod dynval;
 // the binary-private modules of slicec, compiled from the repository's current files
@@ -56,6 +57,8 @@ fn main() {
         let res = match (engine, f.as_slice()) {
             ("codec", ["enc", _fam, ty, val, exp]) => codec::run_enc(ty, val, exp),
             ("codec", ["dec", _fam, ty, hx, exp]) => codec::run_dec(ty, hx, exp),
+            ("buffers", ["hist", _fam, target, ops, exp]) => buffers::run_hist(target, ops, exp),
+            ("buffers", ["src", _fam, buf, ops, exp]) => buffers::run_src(buf, ops, exp),
             ("codec", ["skip", _fam, hx, exp]) => codec::run_skip(hx, exp),
             ("codec", ["reply", _fam, hx, exp]) => codec::run_reply(hx, exp),
             _ => codec::CaseResult { actual: "?".into(), diff: Some("unknown case shape".into()), oracle: None, nontrivial: false },
